@@ -18,7 +18,7 @@ RATE_TABLE = [
 
 
 def gen(rng, *, ia: bool = True, time: bool = True, conditionals: bool = True, computed_dynamic: bool = True,  # noqa: ANN001
-        untouched: bool = True, max_vars: int = 5, untranslatable: bool = False, module_state: float = 0.0, magnitudes: float = 0.0, equality_gates: bool = True) -> dict:
+        untouched: bool = True, max_vars: int = 5, untranslatable: bool = False, module_state: float = 0.0, magnitudes: float = 0.0, equality_gates: bool = True, trace_coefficient: float = 0.0) -> dict:
     L = fl.ref
     nvar = rng.randint(1, max_vars)
     variables = [f"x{i}" for i in range(nvar)]
@@ -145,6 +145,12 @@ def gen(rng, *, ia: bool = True, time: bool = True, conditionals: bool = True, c
             # a by-product counted in other units: a plain coefficient far below one (it is a coefficient all the same)
             comps.append({"kind": "variable", "name": "xtr", "value": 0.5 * state_scale})
             rng.choice(rx_)["stoich"]["xtr"] = rng.choice([2.5e-10, 1.0 / 6.022e23, -4e-12])
+            feats.add("coefficient_far_below_one")
+    if trace_coefficient and "coefficient_far_below_one" not in feats and rng.random() < trace_coefficient:
+        rx_ = [c for c in comps if c["kind"] == "reaction" and c["name"].startswith("v") and c["name"][1:].isdigit()]
+        if rx_:
+            comps.append({"kind": "variable", "name": "xtr", "value": 0.5})
+            rng.choice(rx_)["stoich"]["xtr"] = rng.choice([2.5e-10, 1.0 / 6.022e23, -4e-12, 2.718281828e-7])
             feats.add("coefficient_far_below_one")
     spec = {"components": comps}
     spec = rm.shuffled(spec, rng)
